@@ -152,6 +152,23 @@ def run_case(case):
     rng = case_rng(case)
     ice = gen.make_ice(case["ice"])
     kind = case["ice"]["kind"]
+    if kind == "antarctic" and "n0" in case["ice"] and rng.random() < 0.4:
+        # the same model object was first another ice (and was used as such), then re-parameterised by attribute assignment
+        import pyrex.ice_model as im_
+        sp = case["ice"]
+        ice = im_.AntarcticIce()
+        probe = np.array([-5.0, -150.0, -1200.0])
+        try:
+            ice.index(probe), ice.index(-33.0), ice.gradient(-50.0), ice.attenuation_length(-100.0, 3e8)
+            ice.depth_with_index(1.5), ice.depth_with_index(np.array([1.4, 1.6, 1.77])), ice.depth_with_index(1.0), ice.depth_with_index(2.5)
+        except Exception:       # noqa: BLE001
+            pass
+        ice.n0, ice.k, ice.a = sp["n0"], sp["k"], sp["a"]
+        ice.valid_range = tuple(sp.get("range", (-2850, 0)))
+        if "above" in sp:
+            ice.index_above = sp["above"]
+        if "below" in sp:
+            ice.index_below = sp["below"]
     if kind == "layered":
         bnd = [case["ice"]["layers"][0]["range"][1]] + [l["range"][0] for l in case["ice"]["layers"]]
         lo, hi = bnd[-1], bnd[0]
